@@ -446,8 +446,42 @@ def _opt_unwrap(ex, st, args, dest_ty, func, where):
     return o.pay[1][0]
 
 
+def _opt_scalar_eq(ex, st, args, dest_ty, func, where):
+    """<Option<scalar> as PartialEq>::eq / ne"""
+    a, b = args[0], args[1]
+    while isinstance(a, VRef):
+        a = ex.deref(st, a)
+    while isinstance(b, VRef):
+        b = ex.deref(st, b)
+    if not (isinstance(a, VEnum) and isinstance(b, VEnum)):
+        raise Unsupported("Option == on %r, %r" % (a, b))
+    same = z3.BoolVal(True)
+    if 1 in a.pay and 1 in b.pay:
+        x, y = a.pay[1][0], b.pay[1][0]
+        while isinstance(x, VRef):
+            x = ex.deref(st, x)
+        while isinstance(y, VRef):
+            y = ex.deref(st, y)
+        same = x.t == y.t
+    t = z3.Or(z3.And(a.discr == 0, b.discr == 0), z3.And(a.discr == 1, b.discr == 1, same))
+    return VBool(simp(z3.Not(t) if func.endswith("::ne") else t))
+
+
+def _range_incl_new(ex, st, args, dest_ty, func, where):
+    return VStruct("RangeInclusive", [args[0], args[1], VBool(z3.BoolVal(False))])
+
+
+def _range_incl_contains(ex, st, args, dest_ty, func, where):
+    r = ex.deref(st, args[0]) if isinstance(args[0], VRef) else args[0]
+    x = ex.deref(st, args[1]) if isinstance(args[1], VRef) else args[1]
+    return VBool(simp(z3.And(r.f[0].t <= x.t, x.t <= r.f[1].t)))
+
+
 def install_core(ex):
     A = ex.add_model
+    A(r"^(std::ops::)?RangeInclusive::<\w+>::new$", _range_incl_new, "RangeInclusive::new")
+    A(r"^(std::ops::)?RangeInclusive::<\w+>::contains::<\w+>$", _range_incl_contains, "RangeInclusive::contains")
+    A(r"^<(std::option::)?Option<(u8|u16|u32|u64|usize|i8|i16|i32|i64|isize|bool|char)> as PartialEq>::(eq|ne)$", _opt_scalar_eq, "<Option<scalar> as PartialEq>::eq")
     A(r"^<(u\d+|usize|i\d+|isize) as (std::convert::)?From<(u\d+|bool)>>::from$", _int_from, "<uN as From<uM>>::from")
     A(r"<impl \w+>::wrapping_(add|sub|mul)$", _wrapping, "uN::wrapping_{add,sub,mul}")
     A(r"<impl \w+>::checked_(add|sub|mul)$", _checked, "uN::checked_{add,sub,mul}")
@@ -972,6 +1006,34 @@ def _str_as_bytes(ex, st, args, dest_ty, func, where):
     return VRef("val", val=VSeq(B, I(0), off, "u8"))
 
 
+def _str_replace_str(ex, st, args, dest_ty, func, where):
+    """str::replace(from: &str, to: &str) with CONCRETE non-empty `from` and concrete `to` on a bounded symbolic string:
+    left-to-right, non-overlapping (exactly std's semantics)"""
+    s = _str_of(ex, st, args[0])
+    fr, to = _str_of(ex, st, args[1]), _str_of(ex, st, args[2])
+    m, k = simp(fr.len), simp(to.len)
+    if not (z3.is_int_value(m) and z3.is_int_value(k)) or m.as_long() == 0:
+        raise Unsupported("str::replace with a symbolic or empty pattern")
+    m, k = m.as_long(), k.as_long()
+    fcs = [simp(fr.at(I(j))) for j in range(m)]
+    tcs = [simp(to.at(I(j))) for j in range(k)]
+    cap = ex.str_cap
+    ex.oblig("model-bound", where, "string longer than the model capacity %d" % cap, z3.And(st.guard, s.len > cap))
+    out = z3.K(z3.IntSort(), I(0))
+    off = I(0)
+    skip = I(0)          # characters of the current match still to be skipped
+    for i in range(cap):
+        live = i < s.len
+        hit = z3.And(live, skip == 0, i + m <= s.len, *[s.at(I(i + j)) == fcs[j] for j in range(m)])
+        plain = z3.And(live, skip == 0, z3.Not(hit))
+        for j in range(k):
+            out = z3.Store(out, off + j, z3.If(hit, tcs[j], z3.Select(out, off + j)))
+        out = z3.Store(out, off, z3.If(plain, s.at(I(i)), z3.Select(out, off)))
+        off = simp(off + z3.If(hit, k, z3.If(plain, 1, 0)))
+        skip = simp(z3.If(hit, m - 1, z3.If(skip > 0, skip - 1, 0)))
+    return VStruct("String", [VSeq(out, I(0), off, "char")])
+
+
 def _str_is_empty(ex, st, args, dest_ty, func, where):
     return VBool(simp(_str_of(ex, st, args[0]).len == 0))
 
@@ -1110,6 +1172,7 @@ def install_strings(ex, str_cap):
     A(r"^<(std::string::)?String as (std::ops::)?Deref>::deref$|^(std::string::)?String::as_str$|^<(std::string::)?String as AsRef<str>>::as_ref$", _string_deref, "<String as Deref>::deref / as_str")
     A(r"^core::str::<impl str>::trim_end_matches::<char>$", _trim_end_matches, "str::trim_end_matches(char)")
     A(r"^core::str::<impl str>::trim_start_matches::<&str>$", _trim_start_matches_str, "str::trim_start_matches(&str)")
+    A(r"^(std|alloc)::str::<impl str>::replace::<&str>$|^str::<impl str>::replace::<&str>$", _str_replace_str, "str::replace(&str, &str) (left-to-right, non-overlapping)")
     A(r"^core::str::<impl str>::as_bytes$|^str::<impl str>::as_bytes$", _str_as_bytes, "str::as_bytes (UTF-8 encoding of the chars)")
     A(r"^core::str::<impl str>::is_empty$", _str_is_empty, "str::is_empty")
     A(r"^core::str::<impl str>::contains::<char>$", _str_contains_char, "str::contains(char)")
